@@ -10,6 +10,7 @@ package main
 import (
 	"fmt"
 	"net"
+	"strings"
 	"testing"
 	"time"
 
@@ -19,7 +20,7 @@ import (
 func TestC06(t *testing.T) {
 	V.Rule("lab: requests with 0-6 existing Via entries (now and then, below the sender's, a well-formed one this proxy cannot decode - IPv6 reference, blanks around the slashes or the colon - alone on its line or sharing it) and 0-4 Record-Route entries in any line layout and at any position among the other headers, over the three request paths (backend, Route, static route), must-record-route absent/true/false per listen entry, UDP and TCP ingress, next hop learned through the receiving listener, learned through another listener (an earlier request came from that host), or never learned. Oracle: Via list = [SIP/2.0/<listener transport> addr:port;branch=z9hG4bK+a generated part, never seen before in the run] + input iff destination is a backend or a learned hop (else = input); Record-Route list = [<sip:addr:port;lr>] + input iff a Via was pushed and (input has Record-Route or must-record-route), else = input. Hops known only from the message being routed, or known by name vs by address only, are don't-cares. Branch freshness over every request of the run plus a dedicated run of 12000 (thorough: 20000) relayed requests. non-trivial = >= 2 existing Via entries in >= 2 lines, or >= 1 existing Record-Route, or the not-learned / other-listener variants; distinct by message")
 	V.Assume("branch freshness is a probabilistic oracle: 48 random bits, P(collision among 20000) < 1e-6")
-	V.Require("an existing Via entry the proxy cannot decode, sharing its line with decodable ones", "an unrelated TCP connection ended before the request", "via pushed", "no via (hop not learned)", "via names another listener", "rr added", "rr not added (policy)", "existing rr kept", "path:backend", "path:route", "path:static", ">=2 vias in >=2 lines")
+	V.Require("a learned hop still known after thousands of other hosts were learned", "an existing Via entry the proxy cannot decode, sharing its line with decodable ones", "an unrelated TCP connection ended before the request", "via pushed", "no via (hop not learned)", "via names another listener", "rr added", "rr not added (policy)", "existing rr kept", "path:backend", "path:route", "path:static", ">=2 vias in >=2 lines")
 	vars := []stdVariant{
 		{MustRR: [3]string{"", "true", "false"}, NoReceived: [3]string{"", "", "true"}},
 		{Keep: "on", MustRR: [3]string{"true", "", ""}},
@@ -109,6 +110,74 @@ func TestC06(t *testing.T) {
 		}
 		if f := checkRecordRoute(rc.Msg, res.Out, res.Pushed, mustRR); f != "" {
 			failf(rt, "%s path via %s (hop %s), must-record-route=%v: %s", rc.Path, res.L, rc.HopKind, mustRR, f)
+		}
+	})
+
+	// What the proxy has learned stays learned, however many other hosts it
+	// hears of afterwards: the primed hop (learned first) is still reached with
+	// the proxy's Via on top after thousands of other hosts have been learned.
+	t.Run("learned-hosts-survive", func(t *testing.T) {
+		if (V.replay && V.only != "learned-hosts-survive") || V.ViolationCount() > 0 {
+			return
+		}
+		s := svcs[0]
+		ua := s.uas[1]
+		l := s.in.cfg.Listens[0]
+		send := func(b []byte) error { return ua.sendUDP(l.Addr, l.UDPPort, b) }
+		hosts := V.N(2600, 30000)
+		if V.replay {
+			hosts = 30000
+		}
+		probe := func(after int) bool {
+			id := s.nextID("c06keep-")
+			wire := []byte(fmt.Sprintf("OPTIONS sip:x@elsewhere.example SIP/2.0\r\nVia: SIP/2.0/UDP %s:5060;branch=z9hG4bK%s\r\nRoute: <sip:%s:5070;lr>\r\nFrom: <sip:a@b>;tag=1\r\nTo: <sip:x@elsewhere.example>\r\nCall-ID: %s\r\nCSeq: 1 OPTIONS\r\nContent-Length: 0\r\n\r\n", ua.ip, id, s.ip(20), id))
+			s.in.expect(wire)
+			send(wire)
+			rs, err := s.in.settle(send, 1)
+			V.Eval()
+			got := labMessages(rs)
+			if err != nil || len(got) != 1 {
+				V.Violation(t, "learned-hosts-survive", nil, "after %d further hosts were learned, a request routed to the hop learned first was not relayed exactly once: %v\n%s", after, err, labDescribe(got))
+				return false
+			}
+			if vs := got[0].msg.Entries(hVia); len(vs) != 2 {
+				V.Violation(t, "learned-hosts-survive", map[string]any{"hosts_learned_since": after}, "the next hop %s:5070 was learned through listen entry 0 at the start (a request came from it); after %d further hosts were learned by the same service a request routed to it is relayed with Via entries %q - without the proxy's own on top: the hop has been forgotten", s.ip(20), after, vs)
+				return false
+			}
+			return true
+		}
+		if !probe(0) {
+			return
+		}
+		n := 0
+		for n < hosts {
+			id := s.nextID("c06fill-")
+			var sb strings.Builder
+			fmt.Fprintf(&sb, "OPTIONS sip:nobody@unrouted.invalid SIP/2.0\r\nVia: SIP/2.0/UDP %s:5060;branch=z9hG4bK%s\r\n", ua.ip, id)
+			for k := 0; k < 12; k++ {
+				n++
+				fmt.Fprintf(&sb, "Via: SIP/2.0/UDP h%d-%s.fill.example:5060;branch=z9hG4bKf%d\r\n", n, id, n)
+			}
+			fmt.Fprintf(&sb, "From: <sip:a@b>;tag=1\r\nTo: <sip:nobody@unrouted.invalid>\r\nCall-ID: %s\r\nCSeq: 1 OPTIONS\r\nContent-Length: 0\r\n\r\n", id)
+			send([]byte(sb.String()))
+			if n%1200 == 0 {
+				if _, err := s.in.settle(send, 0); err != nil {
+					V.Violation(t, "learned-hosts-survive", nil, "%v", err)
+					return
+				}
+				if !probe(n) {
+					return
+				}
+			}
+		}
+		if _, err := s.in.settle(send, 0); err != nil {
+			V.Violation(t, "learned-hosts-survive", nil, "%v", err)
+			return
+		}
+		if probe(n) {
+			V.Class("a learned hop still known after thousands of other hosts were learned")
+			V.NonTrivial("learned-hosts-survive")
+			V.Extra("hosts_learned_after_the_probed_hop", n)
 		}
 	})
 
